@@ -164,32 +164,35 @@ func (w *World) Apply(a *Action) Result {
 	ctx := context.Background()
 	switch a.A {
 	case "RegisterNode":
+		before := w.closeCounts()
 		ver := w.cur[a.N] + 1
 		n := &hn.Node{ID: a.N, Ver: ver, Kind: hn.KindOf(w.cfg.Kinds[a.N]), Beh: hn.Pass, L: w.log,
 			CloseFails: contains(w.cfg.CloseFails, a.N)}
 		reg, can := hn.Wrap(n, w.style(a.N, ver))
 		err := w.b.RegisterNode(eventlogger.NodeID(a.N), reg, nodeOpt(a.Pol)...)
 		if err != nil {
-			return Result{R: "err"}
+			return Result{R: "err", Closed: w.closedSince(before)}
 		}
 		w.cur[a.N] = ver
 		w.objs[key(a.N, ver)] = &obj{n: n, reg: reg, canClose: can, id: a.N, ver: ver}
-		return Result{R: "ok"}
+		return Result{R: "ok", Closed: w.closedSince(before)}
 	case "RegisterPipeline":
+		before := w.closeCounts()
 		ids := make([]eventlogger.NodeID, len(a.Ids))
 		for i, s := range a.Ids {
 			ids[i] = eventlogger.NodeID(s)
 		}
 		err := w.b.RegisterPipeline(eventlogger.Pipeline{PipelineID: eventlogger.PipelineID(a.P), EventType: eventlogger.EventType(a.T), NodeIDs: ids}, pipeOpt(a.Pol)...)
 		if err != nil {
-			return Result{R: "err"}
+			return Result{R: "err", Closed: w.closedSince(before)}
 		}
-		return Result{R: "ok"}
+		return Result{R: "ok", Closed: w.closedSince(before)}
 	case "RemovePipeline":
+		before := w.closeCounts()
 		if err := w.b.RemovePipeline(eventlogger.EventType(a.T), eventlogger.PipelineID(a.P)); err != nil {
-			return Result{R: "err"}
+			return Result{R: "err", Closed: w.closedSince(before)}
 		}
-		return Result{R: "ok"}
+		return Result{R: "ok", Closed: w.closedSince(before)}
 	case "RPAN":
 		before := w.closeCounts()
 		ok, err := w.b.RemovePipelineAndNodes(ctx, eventlogger.EventType(a.T), eventlogger.PipelineID(a.P))
@@ -316,6 +319,9 @@ func (w *World) Observe() Obs {
 // Broker.Reopen returned an error that carries the injected failure.
 func (w *World) ReopenFailing(k string) (gotErr bool, carries bool) {
 	ob := w.objs[k]
+	if ob == nil {
+		return false, false // the model speaks of an object the broker never accepted: reported by the caller as a mismatch
+	}
 	ob.n.ReopenFails.Store(true)
 	err := w.b.Reopen(context.Background())
 	ob.n.ReopenFails.Store(false)
